@@ -13,7 +13,7 @@ Qed.
 
 Lemma last_is_ends c s : last_is c s = true <-> ends s c.
 Proof.
-  unfold last_is, ends. destruct (rev s) as [|x r] eqn:E.
+  unfold last_is, ends. rewrite rv_rev. destruct (rev s) as [|x r] eqn:E.
   - apply (f_equal (@rev ch)) in E. rewrite rev_involutive in E. simpl in E. subst.
     split; [discriminate | intros [p H]; destruct p; discriminate].
   - apply (f_equal (@rev ch)) in E. rewrite rev_involutive in E. simpl in E. subst.
